@@ -1,0 +1,121 @@
+//go:build verif
+
+// Contracts for the nft_transfer keeper (comment-only; read by /verif's tibcvc).
+package keeper
+
+//@ import clientkeeper "github.com/bianjieai/tibc-go/modules/tibc/core/02-client/keeper"
+//@ import packetkeeper "github.com/bianjieai/tibc-go/modules/tibc/core/04-packet/keeper"
+//@ import nftexported "mods.irisnet.org/modules/nft/exported"
+
+//@ wire (Keeper).storeKey = store nftxfer
+//@ wire (Keeper).pk = packetkeeper.Keeper
+//@ wire (Keeper).ck = clientkeeper.Keeper
+
+//@ spec IsAway(path: str, dst: str): bool
+//@ spec Away(src: str, dst: str, path: str): str
+//@ spec Back(path: str): str
+//@ spec moduleAddr(name: str): str
+//@ spec storedPath(S: store, class: str): str
+//@ spec vclass(path: str): str = ite(types.tracePath(path) == "", types.traceBase(path), types.ibcOf(types.tracePath(path), types.traceBase(path)))
+
+//@ // ---- assumed contracts of the irismod nft keeper (A-DEP), over the ghost maps nftOwner / nftDenom
+//@ iface types.NftKeeper.GetDenom(ctx, id) (denom, found)
+//@   ensures def: found <==> present(nftDenom[denomk(id)])
+//@ iface types.NftKeeper.GetNFT(ctx, denomID, tokenID) (nft, err)
+//@   ensures def: err == nil <==> present(nftOwner[nftk(denomID, tokenID)])
+//@ iface types.NftKeeper.IssueDenom(ctx, id, name, schema, symbol, creator, mintRestricted, updateRestricted) (err)
+//@   modifies nftDenom
+//@   ensures ok:   err == nil <==> !present(old(nftDenom)[denomk(id)])
+//@   ensures eff:  err == nil ==> nftDenom == old(nftDenom)[denomk(id) := str(creator)]
+//@   ensures fail: err != nil ==> nftDenom == old(nftDenom)
+//@ iface types.NftKeeper.MintNFT(ctx, denomID, tokenID, tokenNm, tokenURI, tokenData, owner) (err)
+//@   modifies nftOwner
+//@   ensures ok:   err == nil <==> present(nftDenom[denomk(denomID)]) && !present(old(nftOwner)[nftk(denomID, tokenID)])
+//@   ensures eff:  err == nil ==> nftOwner == old(nftOwner)[nftk(denomID, tokenID) := str(owner)]
+//@   ensures fail: err != nil ==> nftOwner == old(nftOwner)
+//@ iface types.NftKeeper.TransferOwner(ctx, denomID, tokenID, tokenNm, tokenURI, tokenData, srcOwner, dstOwner) (err)
+//@   modifies nftOwner
+//@   ensures ok:   err == nil <==> old(nftOwner)[nftk(denomID, tokenID)] == some(str(srcOwner))
+//@   ensures eff:  err == nil ==> nftOwner == old(nftOwner)[nftk(denomID, tokenID) := str(dstOwner)]
+//@   ensures fail: err != nil ==> nftOwner == old(nftOwner)
+//@ iface types.NftKeeper.BurnNFT(ctx, denomID, tokenID, owner) (err)
+//@   modifies nftOwner
+//@   ensures ok:   err == nil <==> old(nftOwner)[nftk(denomID, tokenID)] == some(str(owner))
+//@   ensures eff:  err == nil ==> nftOwner == old(nftOwner)[nftk(denomID, tokenID) := none]
+//@   ensures fail: err != nil ==> nftOwner == old(nftOwner)
+//@ iface nftexported.NFT.GetURI() (result)
+//@   flags getter
+//@ iface types.AccountKeeper.GetModuleAddress(name) (result)
+//@   ensures def: result == bytes(moduleAddr(name)) && result != nil && len(result) != 0
+
+//@ // ---- class-path helpers: each is a function of its arguments (trusts); what can be read off the first branch is verified
+//@ func (Keeper).determineAwayFromOrigin(class, destChain) (awayFromOrigin)
+//@   ensures noslash: !contains(class, "/") ==> awayFromOrigin
+//@   ensures noprefix: !hasprefix(class, "nft") ==> awayFromOrigin
+//@   trusts  def:     awayFromOrigin == IsAway(class, destChain)
+//@ func (Keeper).getAwayNewClassPath(scChain, destChain, class) (newClassPath)
+//@   trusts  def: newClassPath == Away(scChain, destChain, class)
+//@ func (Keeper).getBackNewClassPath(class) (newClassPath)
+//@   trusts  def: newClassPath == Back(class)
+
+//@ // voucher class of a path; records the trace on first use
+//@ func (Keeper).getIBCClassFromClassPath(ctx, classPath) (result)
+//@   modifies nftxfer
+//@   ensures def:   result == vclass(classPath)
+//@   ensures frame: forall k: key :: !is_prefixed(k) ==> nftxfer[k] == old(nftxfer)[k]
+//@   trusts  trace: storedPath(nftxfer, result) == classPath
+//@ func (Keeper).ClassPathFromHash(ctx, class) (path, err)
+//@   trusts  def: err == nil ==> path == storedPath(nftxfer, class)
+
+//@ // ---- C04 / C06 / C09 / C19: token effects of the three entry points, in terms of the ghost owner map
+//@ func (Keeper).SendNftTransfer(ctx, class, id, sender, receiver, destChain, relayChain, destContract) (err)
+//@   props C04 C06 C09 C19
+//@   modifies tibc, events, nftOwner
+//@   let me       = clientkeeper.selfName(tibc)
+//@   let mod      = moduleAddr(types.ModuleName)
+//@   let voucher  = hasprefix(class, "tibc-")
+//@   let fullPath = ite(voucher, storedPath(nftxfer, class), class)
+//@   let away     = IsAway(fullPath, destChain)
+//@   let K        = nftk(class, id)
+//@   requires nowrap: packetkeeper.nextSendVal(tibc[nextSend(me, destChain)]) <u MAXU64
+//@   ensures exists:        err == nil ==> present(nftDenom[denomk(class)]) && present(old(nftOwner)[K]) && me != destChain
+//@   ensures lock.exact:    err == nil && away  ==> old(nftOwner)[K] == some(str(sender)) && nftOwner == old(nftOwner)[K := mod]
+//@   ensures burn.exact:    err == nil && !away ==> old(nftOwner)[K] == some(str(sender)) && nftOwner == old(nftOwner)[K := none]
+//@   ensures burn.is_voucher: err == nil && !away ==> voucher
+//@   ensures packet:        err == nil ==> ncalls((Keeper).SendPacket) == 1 && (forall c in calls((Keeper).SendPacket) :: c.err == nil &&
+//@                            c.packet.SourceChain == me && c.packet.DestinationChain == destChain && c.packet.RelayChain == relayChain && c.packet.Port == "NFT" &&
+//@                            (exists u: str :: c.packet.Data == bytes(types.nftDataEnc(fullPath, id, u, bech32(sender), receiver, away, destContract))))
+//@   ensures propagate:     (forall c in calls((Keeper).SendPacket) :: c.err != nil ==> err != nil)
+//@   ensures early.noeffect: err != nil && !called((Keeper).SendPacket) ==> nftOwner == old(nftOwner) && tibc == old(tibc) && events == old(events)
+//@
+//@ func (Keeper).OnRecvPacket(ctx, packet, data) (err)
+//@   props C04 C06 C19
+//@   modifies nftOwner, nftDenom, nftxfer
+//@   let mod      = moduleAddr(types.ModuleName)
+//@   let rcv      = bech32dec(data.Receiver)
+//@   let awayPath = Away(packet.SourceChain, packet.DestinationChain, data.Class)
+//@   let vc       = vclass(awayPath)
+//@   let uc       = vclass(Back(data.Class))
+//@   ensures mint.voucher: err == nil && data.AwayFromOrigin  ==> !present(old(nftOwner)[nftk(vc, data.Id)]) && nftOwner == old(nftOwner)[nftk(vc, data.Id) := rcv]
+//@   ensures unlock.exact: err == nil && !data.AwayFromOrigin ==> old(nftOwner)[nftk(uc, data.Id)] == some(mod) && nftOwner == old(nftOwner)[nftk(uc, data.Id) := rcv]
+//@                                                             && hasprefix(data.Class, "nft")
+//@   ensures receiver.valid: err == nil ==> validbech32(data.Receiver)
+//@   ensures err.noeffect: err != nil ==> nftOwner == old(nftOwner)
+//@   ensures tibc.untouched: true
+//@
+//@ func (Keeper).refundPacketToken(ctx, data) (err)
+//@   props C04 C06
+//@   modifies nftOwner
+//@   let mod = moduleAddr(types.ModuleName)
+//@   let snd = bech32dec(data.Sender)
+//@   let vc  = vclass(data.Class)
+//@   ensures unlock: err == nil && data.AwayFromOrigin  ==> old(nftOwner)[nftk(vc, data.Id)] == some(mod) && nftOwner == old(nftOwner)[nftk(vc, data.Id) := snd]
+//@   ensures remint: err == nil && !data.AwayFromOrigin ==> !present(old(nftOwner)[nftk(vc, data.Id)]) && nftOwner == old(nftOwner)[nftk(vc, data.Id) := snd]
+//@   ensures err.noeffect: err != nil ==> nftOwner == old(nftOwner)
+//@
+//@ func (Keeper).OnAcknowledgementPacket(ctx, data, ack) (err)
+//@   props C04 C06 C03
+//@   modifies nftOwner
+//@   ensures success.noop: !called((Keeper).refundPacketToken) ==> nftOwner == old(nftOwner) && err == nil
+//@   ensures refund.only_on_error: called((Keeper).refundPacketToken) ==> isErrorAck(ack)
+//@   ensures error.refunds: isErrorAck(ack) ==> ncalls((Keeper).refundPacketToken) == 1 && (forall c in calls((Keeper).refundPacketToken) :: c.data == data && c.err == err)
